@@ -39,7 +39,7 @@ class PathLike:
 
 def spell(path, how, sandbox):
     """Alternative spellings of one absolute path (C07)."""
-    if how in (None, 'abs'):
+    if how in (None, 'abs', 'plain'):
         return path
     if how == 'bytes':
         return os.fsencode(path)
@@ -347,7 +347,7 @@ class Interp:
             try:
                 if self.mode == 'real':
                     r = B.build_file(path, fname, func, args, kwargs, cmp,
-                                     spelling)
+                                     spelling, plain=spelling == 'plain')
                 else:
                     r = B.build_file(path, fname, func, args, kwargs, cmp)
             except CrashError:
